@@ -2,6 +2,7 @@ package props
 
 import (
 	"fmt"
+	"math"
 	"sort"
 	"strconv"
 	"strings"
@@ -118,10 +119,17 @@ func c11Check(c MetricCase) (r evid.Result) {
 			tms := t / 1e6
 			in := inputs[t]
 			inByKey := map[string]float64{}
+			inErr := map[string]float64{}
+			maxErr := 0.0
 			groups := map[string][]float64{}
 			for _, s := range in {
 				k := canon.LabelKey(model.NormLabels(s.Labels))
 				inByKey[k] = s.V
+				inErr[k] = s.E
+				if s.Unc {
+					inErr[k] = math.Inf(1)
+				}
+				maxErr = math.Max(maxErr, inErr[k])
 				gk := groupKeyOf(top, s.Labels)
 				groups[gk] = append(groups[gk], s.V)
 			}
@@ -139,7 +147,7 @@ func c11Check(c MetricCase) (r evid.Result) {
 					r.Violation = evid.Viol("C11/invented-series", "%s at %d: series {%s} is not an input series", c.Text, tms, k)
 					return r
 				}
-				if !canon.FloatEq(v, want) {
+				if !canon.FloatEqTol(v, want, inErr[k]) {
 					r.Violation = evid.Viol("C11/value-changed", "%s at %d: series {%s} = %v, its input value is %v", c.Text, tms, k, v, want)
 					return r
 				}
@@ -183,7 +191,7 @@ func c11Check(c MetricCase) (r evid.Result) {
 				}
 				// The multiset of kept values must be the k extreme values of the group.
 				for i := range out {
-					if !canon.FloatEq(out[i], vals[i]) {
+					if !canon.FloatEqTol(out[i], vals[i], 2*maxErr) {
 						r.Violation = evid.Viol("C11/not-the-extremes", "%s at %d: group {%s}: kept values %v, the %d extreme values are %v", c.Text, tms, gk, out, wantN, vals[:wantN])
 						return r
 					}
